@@ -41,6 +41,7 @@ package sender
 
 //@ func schemeToRecv
 //@ props C19
+//@ abstract-calls external
 //@ nopanic C13
 //@ ensures result1 == (result0 != nil)
 //@ ensures result0 != nil ==> result0.Type == "http" || result0.Type == "poll"
